@@ -280,7 +280,14 @@ def check(case, rec):
                     sw = sw[:1] + [True] + sw[2:]
                 arrs = {'peaks': centre if sw[1] else None, 'troughs': side if sw[2] else None,
                         'rises': rises if sw[3] else None, 'decays': decays if sw[4] else None}
-                guarded(plot_cyclepoints_array, x, fs, plot_sig=sw[0], xlim=xlim, **{k: (None if v is None else v.copy()) for k, v in arrs.items()})
+                extra_kw = {}
+                n_series = int(sw[0]) + sum(v is not None for v in arrs.values())
+                if case.get('colors'):
+                    # a caller-supplied colour cycle (documented plot_time_series keyword), shorter than / as long as / longer than
+                    # the number of drawn series: colours are styling and must never decide which cyclepoints are drawn
+                    pool = ['k', 'b', 'r', 'm', 'c', 'g', 'y']
+                    extra_kw['colors'] = pool[:max(1, min(len(pool), n_series + [-2, -1, 0, 1][case['colors'] % 4]))]
+                guarded(plot_cyclepoints_array, x, fs, plot_sig=sw[0], xlim=xlim, **{k: (None if v is None else v.copy()) for k, v in arrs.items()}, **extra_kw)
                 ax = plt.gcf().axes[0]
                 ml = marker_lines(ax)
                 kinds = [(k, v) for k, v in arrs.items() if v is not None]
@@ -295,12 +302,22 @@ def check(case, rec):
                     thp = th_plot
                 else:
                     kw = gen.cf_kwargs(c)
+                    if case.get('recompute_first') and c['method'] == 'cycles':
+                        th_plot = {k_: (max(v, 0.125) if k_.endswith('threshold') else v) for k_, v in th_plot.items()}   # leave room for a reduction
                     bm = Bycycle(center_extrema=kw['center_extrema'], burst_method=kw['burst_method'], burst_kwargs=kw['burst_kwargs'],
                                  thresholds=dict(th_plot), find_extrema_kwargs=kw['find_extrema_kwargs'], return_samples=True)
                     guarded(bm.fit, x.copy(), fs, tuple(c['f_range']))
                     df = bm.df_features
                     keep = df.copy(deep=True)
                     nm, centre, side, rises, decays = table_points(df)
+                    if case.get('recompute_first') and c['method'] == 'cycles' and all(v >= 0.125 for k_, v in bm.thresholds.items() if k_.endswith('threshold')):
+                        # fit -> recompute_edges(reduction) -> plot: the labels come from the recomputed table, the threshold lines
+                        # stay at the thresholds the object holds ("the given threshold")
+                        guarded(bm.recompute_edges, [None, 0.125][case['recompute_first'] % 2])
+                        df = bm.df_features
+                        keep = df.copy(deep=True)
+                        nm, centre, side, rises, decays = table_points(df)
+                        rec.label('plot-after-recompute')
                     thp = dict(bm.thresholds)
                     guarded(bm.plot, xlim=xlim, plot_only_results=por, interp=interp)
                 check_summary_axes(tag, plt.gcf().axes, df, x, fs, thp, a, b, por, interp)
@@ -356,12 +373,12 @@ def strategy(draw, tier):
     second = draw(st.booleans())
     return {'base': base, 'xlim': xlim, 'probe': draw(st.integers(0, 1)),
             'target': draw(st.sampled_from(['plot_cyclepoints_df', 'plot_cyclepoints_array', 'plot_burst_detect_summary',
-                                            'plot_burst_detect_summary', 'plot_burst_detect_summary', 'Bycycle.plot', 'plot_burst_detect_param'])),
+                                            'plot_burst_detect_summary', 'plot_burst_detect_summary', 'Bycycle.plot', 'Bycycle.plot', 'plot_burst_detect_param'])),
             'switches': draw(st.lists(st.booleans(), min_size=5, max_size=5)),
             'plot_only_result': draw(st.sampled_from([True, True, True, False])) if second else draw(st.booleans()),
             'interp': draw(st.booleans()), 'param': draw(st.sampled_from(['monotonicity', 'amp_consistency', 'period_consistency', 'amp_fraction', 'burst_fraction'])),
             'thresh': draw(st.sampled_from([0.0, 0.3, 0.5, 0.8, 1.0])), 'th_order': draw(st.sampled_from([0, 0, 1, 2])),
-            'second_drawing': second, 'epoch': draw(st.one_of(st.just(0), st.just(0), st.integers(1, 30))), 'row_subset': draw(st.one_of(st.just(0), st.just(0), st.integers(1, 4094)))}
+            'second_drawing': second, 'colors': draw(st.one_of(st.just(0), st.integers(1, 8))), 'recompute_first': draw(st.integers(0, 3)), 'epoch': draw(st.one_of(st.just(0), st.just(0), st.integers(1, 30))), 'row_subset': draw(st.one_of(st.just(0), st.just(0), st.integers(1, 4094)))}
 
 
 PARTS = [Part('figures', check, strategy=strategy, budget={'quick': 640, 'thorough': 12000}, shards={'quick': 16, 'thorough': 16},
